@@ -6,6 +6,7 @@ import (
 	"sync"
 
 	"github.com/indexsupply/shovel/eth"
+	"github.com/indexsupply/shovel/jrpc2"
 	"github.com/indexsupply/shovel/shovel/config"
 
 	"verifharness/core"
@@ -24,8 +25,9 @@ func (w *world) truthRows(t *wTask) []string {
 	var chain *simnode.Chain
 	w.node.With(func(c *simnode.Chain) { chain = c.Clone() })
 	flt := t.side.Filter()
+	truth := jrpc2.New(w.node.URL() + "/nocache") // a fresh uncached client: the source's own answer
 	for n := 1; n < len(chain.Blocks); n++ {
-		bs, err := w.client.Get(w.ctx, w.node.URL()+"/nocache", &flt, uint64(n), 1)
+		bs, err := truth.Get(w.ctx, w.node.URL()+"/nocache", &flt, uint64(n), 1)
 		if err != nil || len(bs) != 1 {
 			out = append(out, fmt.Sprintf("%d:!fetch", n))
 			continue
